@@ -184,3 +184,32 @@ Proof.
            end;
     try (split; [f_equal; f_equal; lia | lia]); try lia.
 Qed.
+
+(* ------------------------------------------------------------------ indefinite axes *)
+Definition ozln_ok (z : Ln GP) : Prop := ozgp_ok (l_start z) /\ ozgp_ok (l_end z).
+
+Lemma into_origin_zero_ok : forall ln e z, 0 <= e <= 64 -> ln_ok ln -> into_origin_zero ln e = Ok z ->
+  z = mkLn (ozp_spec (l_start ln) e) (ozp_spec (l_end ln) e) /\ ozln_ok z.
+Proof.
+  intros ln e z He [Hs Ht] H. apply into_origin_zero_spec in H; [|lia]. subst. split; auto.
+  split; simpl; apply ozp_spec_ok; auto.
+Qed.
+
+Lemma indefinite_span_range : forall z s, ozln_ok z -> indefinite_span z = Ok s -> 1 <= s <= 64.
+Proof.
+  intros [a b] s [Ha Hb] H. unfold indefinite_span in H. simpl in *.
+  destruct a, b; simpl in *; mon; lia.
+Qed.
+
+Lemma resolve_indefinite_spec : forall z pos r, ozln_ok z -> resolve_indefinite_grid_tracks z pos = Ok r ->
+  l_start r = pos /\ pos < l_end r /\ l_end r <= pos + 64.
+Proof.
+  intros [a b] pos r [Ha Hb] H. unfold resolve_indefinite_grid_tracks in H. simpl in *.
+  destruct a, b; simpl in *; mon; simpl; rewrite ?u16_as_i16_small in * by lia; lia.
+Qed.
+
+Lemma expected_some_definite : forall ln e a b, expected ln e = Some (a, b) -> is_definite ln = true.
+Proof.
+  intros ln e a b H. apply is_definite_spec. unfold expected in H.
+  destruct (nz_line (l_start ln)), (nz_line (l_end ln)); try discriminate; try (left; discriminate); right; discriminate.
+Qed.
